@@ -92,6 +92,19 @@ pub fn descriptor(id: &[u8]) -> PublicKeyCredentialDescriptor {
     PublicKeyCredentialDescriptor { ty: PublicKeyCredentialType::PublicKey, id: id.to_vec().into(), transports: None }
 }
 
+/// descriptor with transport hints chosen by `tsel` (0 none, 1 usb, 2 internal+hybrid, 3 nfc+ble, 4 empty list)
+pub fn descriptor_full(id: &[u8], known: bool, tsel: u8) -> PublicKeyCredentialDescriptor {
+    use passkey_types::webauthn::AuthenticatorTransport as T;
+    let transports = match tsel % 5 {
+        0 => None,
+        1 => Some(vec![T::Usb]),
+        2 => Some(vec![T::Internal, T::Hybrid]),
+        3 => Some(vec![T::Nfc, T::Ble]),
+        _ => Some(vec![]),
+    };
+    PublicKeyCredentialDescriptor { ty: if known { PublicKeyCredentialType::PublicKey } else { PublicKeyCredentialType::Unknown }, id: id.to_vec().into(), transports }
+}
+
 pub fn descriptor_ty(id: &[u8], known: bool) -> PublicKeyCredentialDescriptor {
     PublicKeyCredentialDescriptor { ty: if known { PublicKeyCredentialType::PublicKey } else { PublicKeyCredentialType::Unknown }, id: id.to_vec().into(), transports: None }
 }
